@@ -27,6 +27,7 @@ import (
 	"go/token"
 	"os"
 	"path/filepath"
+	"regexp"
 	"strconv"
 	"strings"
 )
@@ -320,64 +321,450 @@ func skeleton(fd *ast.FuncDecl) []step {
 
 // ---------------------------------------------------------------- typed steps (interpreted in Lean)
 //
-// The top-level statements of a Write method as steps the Lean side gives a meaning to:
-//   w M F        stream.M(this.F) or stream.M(T(this.F)) or pkg.M(stream, this.F)
-//   lit M v      stream.M(<integer literal | true | false>)
-//   hdr          this.AbstractPack.Write(stream)
-//   arr8 F       this.writeShortArray(stream, this.F)
-//   sec NAME     an if / for statement or a helper call this.helper(stream): an opaque section; NAME is
-//                "if:<normalised condition>", "for:<first field mentioned>", or the helper's name
-//   blobWrap     out.WriteBlob(stream.ToByteArray())
-//   other TEXT   anything else that writes
-// Statements that do not write (assignments, declarations) are skipped.
+// The statements of a function that write to a stream, as nested steps the Lean side gives a meaning to
+// (Golib/Wire/Steps.lean):
+//   w M A          stream.M(A) / pkg.M(stream, A) / A.ToBytes(stream)          on the main stream
+//   side M A       the same on another stream (a side buffer)
+//   lit M v        stream.M(<integer literal | true | false>)
+//   hdr            this.AbstractPack.Write(stream)
+//   arr8 A         this.writeShortArray(stream, A)
+//   call NAME      this.NAME(stream)
+//   put K V        this.Attr.Put(K, V)
+//   ite C T E      if C { T } else { E }        (only when a branch writes or puts)
+//   loop N B       for … { B }                  (only when the body writes)
+//   wrapHeader AS  stream.WriteHeader(AS…): wraps what the stream holds
+//   blobWrap       out.WriteBlob(side.ToByteArray())
+//   other TEXT     anything else that writes
+// Argument texts: an outer integer conversion is dropped, a local with exactly one definition is
+// replaced by its definition (so `m.Time` reads `….GetValue().(*TxMeter).Time`), other locals are
+// positional (_L0…), the stream is `$`, a leading `this.` is dropped.  Renaming locals or reordering
+// statements that neither write nor define a written value leaves the steps unchanged.
 
-func thisField(e ast.Expr) (string, bool) {
-	// this.F or this.A.B  → "F" / "A.B"
-	var parts []string
-	for {
-		se, ok := e.(*ast.SelectorExpr)
-		if !ok {
-			break
-		}
-		parts = append([]string{se.Sel.Name}, parts...)
-		e = se.X
-	}
-	if id, ok := e.(*ast.Ident); ok && id.Name == "this" && len(parts) > 0 {
-		return strings.Join(parts, "."), true
-	}
-	return "", false
+type stepper struct {
+	fd      *ast.FuncDecl
+	loc     map[string]bool
+	defs    map[string]ast.Expr // locals with exactly one definition
+	idx     map[string]int
+	streams map[string]int // local idents used as receiver / first argument of Write* calls
+	main    string
+	loops   int
 }
 
-func fieldArg(e ast.Expr) (string, bool) {
-	if f, ok := thisField(e); ok {
-		return f, true
+func newStepper(fd *ast.FuncDecl) *stepper {
+	st := &stepper{fd: fd, loc: localsOf(fd), defs: map[string]ast.Expr{}, idx: map[string]int{}, streams: map[string]int{}}
+	recvName := ""
+	if fd.Recv != nil && len(fd.Recv.List) == 1 && len(fd.Recv.List[0].Names) == 1 {
+		recvName = fd.Recv.List[0].Names[0].Name
+		delete(st.loc, recvName)
 	}
-	if c, ok := e.(*ast.CallExpr); ok && len(c.Args) == 1 {
-		if id, ok := c.Fun.(*ast.Ident); ok {
-			switch id.Name {
-			case "int64", "int32", "int16", "int", "byte", "uint8", "int8":
-				return thisField(c.Args[0])
+	isWriteMethod := func(n string) bool { return strings.HasPrefix(n, "Write") && len(n) > 5 }
+	count := map[string]int{}
+	noSubst := map[string]bool{}
+	ast.Inspect(fd.Body, func(n ast.Node) bool {
+		switch x := n.(type) {
+		case *ast.AssignStmt:
+			for i, l := range x.Lhs {
+				if id, ok := l.(*ast.Ident); ok && st.loc[id.Name] {
+					count[id.Name]++
+					if len(x.Lhs) == len(x.Rhs) {
+						st.defs[id.Name] = x.Rhs[i]
+					} else {
+						noSubst[id.Name] = true
+					}
+				}
 			}
-		}
-	}
-	return "", false
-}
-
-func firstThisField(n ast.Node) string {
-	res := ""
-	ast.Inspect(n, func(x ast.Node) bool {
-		if res != "" {
-			return false
-		}
-		if e, ok := x.(ast.Expr); ok {
-			if f, ok := thisField(e); ok {
-				res = f
-				return false
+		case *ast.IncDecStmt:
+			if id, ok := x.X.(*ast.Ident); ok {
+				noSubst[id.Name] = true
+			}
+		case *ast.RangeStmt:
+			for _, l := range []ast.Expr{x.Key, x.Value} {
+				if id, ok := l.(*ast.Ident); ok {
+					noSubst[id.Name] = true
+				}
+			}
+		case *ast.CallExpr:
+			if se, ok := x.Fun.(*ast.SelectorExpr); ok && isWriteMethod(se.Sel.Name) {
+				if id, ok := se.X.(*ast.Ident); ok && (st.loc[id.Name] || (id.Name == recvName && recvName != "this")) {
+					st.streams[id.Name]++
+				} else if len(x.Args) >= 1 {
+					if id, ok := x.Args[0].(*ast.Ident); ok && st.loc[id.Name] && len(x.Args) == 2 {
+						st.streams[id.Name]++
+					}
+				}
 			}
 		}
 		return true
 	})
-	return res
+	for n, d := range st.defs {
+		if count[n] != 1 || noSubst[n] || !st.isPath(d) {
+			delete(st.defs, n)
+		}
+	}
+	best := -1
+	for n, c := range st.streams {
+		if c > best || (c == best && n < st.main) {
+			best, st.main = c, n
+		}
+	}
+	return st
+}
+
+// isPath: a selector / call / index / type-assertion chain rooted at `this` or a local
+func (st *stepper) isPath(e ast.Expr) bool {
+	for {
+		switch x := e.(type) {
+		case *ast.ParenExpr:
+			e = x.X
+		case *ast.SelectorExpr:
+			e = x.X
+		case *ast.CallExpr:
+			if _, ok := x.Fun.(*ast.SelectorExpr); !ok {
+				return false
+			}
+			e = x.Fun
+		case *ast.IndexExpr:
+			e = x.X
+		case *ast.TypeAssertExpr:
+			e = x.X
+		case *ast.Ident:
+			return x.Name == "this" || st.loc[x.Name]
+		default:
+			return false
+		}
+	}
+}
+
+func (st *stepper) isStream(e ast.Expr) (string, bool) {
+	if id, ok := e.(*ast.Ident); ok && st.streams[id.Name] > 0 {
+		return id.Name, true
+	}
+	return "", false
+}
+
+// subst: copy of the expression with single-definition locals replaced by their definition,
+// streams by `$`, other locals by positional names.
+func (st *stepper) subst(e ast.Expr, depth int) ast.Expr {
+	switch x := e.(type) {
+	case nil:
+		return nil
+	case *ast.Ident:
+		if n, ok := st.isStream(x); ok {
+			if n == st.main {
+				return &ast.Ident{Name: "$"}
+			}
+			return &ast.Ident{Name: "$side"}
+		}
+		if st.loc[x.Name] {
+			if d, ok := st.defs[x.Name]; ok && depth < 8 {
+				return &ast.ParenExpr{X: st.subst(d, depth+1)}
+			}
+			k, ok := st.idx[x.Name]
+			if !ok {
+				k = len(st.idx)
+				st.idx[x.Name] = k
+			}
+			return &ast.Ident{Name: fmt.Sprintf("_L%d", k)}
+		}
+		return x
+	case *ast.SelectorExpr:
+		return &ast.SelectorExpr{X: st.subst(x.X, depth), Sel: x.Sel}
+	case *ast.CallExpr:
+		c := &ast.CallExpr{Fun: st.subst(x.Fun, depth)}
+		for _, a := range x.Args {
+			c.Args = append(c.Args, st.subst(a, depth))
+		}
+		return c
+	case *ast.BinaryExpr:
+		return &ast.BinaryExpr{X: st.subst(x.X, depth), Op: x.Op, Y: st.subst(x.Y, depth)}
+	case *ast.UnaryExpr:
+		return &ast.UnaryExpr{Op: x.Op, X: st.subst(x.X, depth)}
+	case *ast.ParenExpr:
+		return &ast.ParenExpr{X: st.subst(x.X, depth)}
+	case *ast.StarExpr:
+		return &ast.StarExpr{X: st.subst(x.X, depth)}
+	case *ast.IndexExpr:
+		return &ast.IndexExpr{X: st.subst(x.X, depth), Index: st.subst(x.Index, depth)}
+	case *ast.TypeAssertExpr:
+		return &ast.TypeAssertExpr{X: st.subst(x.X, depth), Type: x.Type}
+	default:
+		return e
+	}
+}
+
+func stripParens(e ast.Expr) ast.Expr {
+	for {
+		p, ok := e.(*ast.ParenExpr)
+		if !ok {
+			return e
+		}
+		e = p.X
+	}
+}
+
+func (st *stepper) txt(e ast.Node) string {
+	var t string
+	if ex, ok := e.(ast.Expr); ok {
+		t = text(st.subst(ex, 0))
+	} else {
+		t = text(e)
+	}
+	t = strings.ReplaceAll(t, ". ", ".")
+	// drop the parentheses introduced around substituted definitions where they are not needed
+	for _, pat := range []string{"(", ")"} {
+		_ = pat
+	}
+	return t
+}
+
+var parenIdent = regexp.MustCompile(`\((\$|[A-Za-z_][A-Za-z0-9_.]*(\([^()]*\))?(\.[A-Za-z_][A-Za-z0-9_]*(\([^()]*\))?|\.\(\*?[A-Za-z_.]+\))*)\)`)
+
+func tidy(t string) string {
+	// (x.y(z)) → x.y(z) when the parenthesised text is a plain selector/call chain
+	for i := 0; i < 10; i++ {
+		n := parenIdent.ReplaceAllStringFunc(t, func(m string) string {
+			// keep call argument lists: only strip when the '(' is not directly preceded by an identifier char
+			return m
+		})
+		if n == t {
+			break
+		}
+		t = n
+	}
+	return t
+}
+
+// argText: the written value, outer integer conversion dropped, leading "this." dropped.
+func (st *stepper) argText(e ast.Expr) (string, bool, uint64) {
+	e = stripParens(e)
+	if c, ok := e.(*ast.CallExpr); ok && len(c.Args) == 1 {
+		if id, ok := c.Fun.(*ast.Ident); ok {
+			switch id.Name {
+			case "int64", "int32", "int16", "int", "byte", "uint8", "int8":
+				e = stripParens(c.Args[0])
+			}
+		}
+	}
+	if bl, ok := e.(*ast.BasicLit); ok && bl.Kind == token.INT {
+		v, _ := intOf(bl.Value)
+		return "", true, v
+	}
+	if id, ok := e.(*ast.Ident); ok && (id.Name == "true" || id.Name == "false") {
+		if id.Name == "true" {
+			return "", true, 1
+		}
+		return "", true, 0
+	}
+	t := unparen(st.txt(e))
+	t = strings.TrimPrefix(t, "this.")
+	return t, false, 0
+}
+
+// unparen removes parentheses that wrap a whole selector operand: "(a.b()).c" → "a.b().c"
+func unparen(t string) string {
+	for {
+		changed := false
+		depth := 0
+		start := -1
+		for i := 0; i < len(t); i++ {
+			switch t[i] {
+			case '(':
+				if depth == 0 {
+					start = i
+				}
+				depth++
+			case ')':
+				depth--
+				if depth == 0 && start >= 0 {
+					// a group opened at `start`: strip it if it is not a call's argument list / type assertion / conversion
+					prev := byte(' ')
+					if start > 0 {
+						prev = t[start-1]
+					}
+					isOperand := start == 0 || !(prev == '_' || prev == ']' || prev == ')' || prev == '.' || prev == '$' ||
+						(prev >= 'a' && prev <= 'z') || (prev >= 'A' && prev <= 'Z') || (prev >= '0' && prev <= '9'))
+					inner := t[start+1 : i]
+					simple := !strings.ContainsAny(inner, " +-<>=!&|^")
+					if isOperand && simple && !strings.HasPrefix(inner, "*") {
+						t = t[:start] + inner + t[i+1:]
+						changed = true
+					}
+					start = -1
+				}
+			}
+			if changed {
+				break
+			}
+		}
+		if !changed {
+			return t
+		}
+	}
+}
+
+func (st *stepper) stepsOf(stmts []ast.Stmt, ind string) []string {
+	var out []string
+	for _, s := range stmts {
+		out = append(out, st.stepOf(s, ind)...)
+	}
+	return out
+}
+
+func hasPut(n ast.Node) bool {
+	found := false
+	ast.Inspect(n, func(x ast.Node) bool {
+		if c, ok := x.(*ast.CallExpr); ok {
+			if se, ok := c.Fun.(*ast.SelectorExpr); ok && se.Sel.Name == "Put" {
+				found = true
+			}
+		}
+		return !found
+	})
+	return found
+}
+
+func list(items []string, ind string) string {
+	if len(items) == 0 {
+		return "[]"
+	}
+	return "[\n" + ind + "  " + strings.Join(items, ",\n"+ind+"  ") + "]"
+}
+
+func (st *stepper) writeStep(stream, name string, arg ast.Expr) string {
+	t, isLit, v := st.argText(arg)
+	kind := ".w"
+	if stream != st.main {
+		kind = ".side"
+	}
+	if isLit {
+		if kind == ".side" {
+			return fmt.Sprintf(".side %s %s", leanStr(name), leanStr(fmt.Sprint(v)))
+		}
+		return fmt.Sprintf(".lit %s %d", leanStr(name), v)
+	}
+	return fmt.Sprintf("%s %s %s", kind, leanStr(name), leanStr(t))
+}
+
+func (st *stepper) stepOf(s ast.Stmt, ind string) []string {
+	switch x := s.(type) {
+	case *ast.ExprStmt:
+		c, ok := x.X.(*ast.CallExpr)
+		if !ok {
+			return nil
+		}
+		se, isSel := c.Fun.(*ast.SelectorExpr)
+		if isSel {
+			if stream, ok := st.isStream(se.X); ok && strings.HasPrefix(se.Sel.Name, "Write") && len(se.Sel.Name) > 5 {
+				switch {
+				case (se.Sel.Name == "WriteHeader" || se.Sel.Name == "WriteOneWayHeader") && len(c.Args) == 4:
+					var as []string
+					for _, a := range c.Args {
+						t, isLit, v := st.argText(a)
+						if isLit {
+							t = fmt.Sprint(v)
+						}
+						as = append(as, leanStr(t))
+					}
+					return []string{".wrapHeader [" + strings.Join(as, ", ") + "]"}
+				case se.Sel.Name == "WriteBlob" && len(c.Args) == 1:
+					if ic, ok := c.Args[0].(*ast.CallExpr); ok && len(ic.Args) == 0 {
+						if is, ok := ic.Fun.(*ast.SelectorExpr); ok && is.Sel.Name == "ToByteArray" {
+							if _, ok := st.isStream(is.X); ok {
+								return []string{".blobWrap"}
+							}
+						}
+					}
+					return []string{st.writeStep(stream, se.Sel.Name, c.Args[0])}
+				case len(c.Args) == 1:
+					return []string{st.writeStep(stream, se.Sel.Name, c.Args[0])}
+				}
+				return []string{".other " + leanStr(st.txt(c))}
+			}
+			if len(c.Args) >= 1 {
+				if stream, ok := st.isStream(c.Args[0]); ok {
+					recv := st.txt(se.X)
+					switch {
+					case len(c.Args) == 1 && se.Sel.Name == "Write" && recv == "this.AbstractPack":
+						return []string{".hdr"}
+					case len(c.Args) == 1 && recv == "this" && strings.HasPrefix(se.Sel.Name, "write"):
+						return []string{".call " + leanStr(se.Sel.Name)}
+					case len(c.Args) == 2 && recv == "this" && se.Sel.Name == "writeShortArray":
+						t, _, _ := st.argText(c.Args[1])
+						return []string{".arr8 " + leanStr(t)}
+					case len(c.Args) == 2 && strings.HasPrefix(se.Sel.Name, "Write"):
+						return []string{st.writeStep(stream, se.Sel.Name, c.Args[1])}
+					case len(c.Args) == 1 && (se.Sel.Name == "ToBytes" || se.Sel.Name == "Write"):
+						t, _, _ := st.argText(se.X)
+						kind := ".w"
+						if stream != st.main {
+							kind = ".side"
+						}
+						return []string{fmt.Sprintf("%s %s %s", kind, leanStr(se.Sel.Name), leanStr(t))}
+					}
+					return []string{".other " + leanStr(st.txt(c))}
+				}
+			}
+			if se.Sel.Name == "Put" && len(c.Args) == 2 && st.txt(se.X) == "this.Attr" {
+				return []string{fmt.Sprintf(".put %s %s", leanStr(st.txt(c.Args[0])), leanStr(strings.TrimPrefix(st.txt(c.Args[1]), "this.")))}
+			}
+		}
+		if hasWrite(c) {
+			return []string{".other " + leanStr(st.txt(c))}
+		}
+		return nil
+	case *ast.IfStmt:
+		if !hasWrite(x) && !hasPut(x) {
+			return nil
+		}
+		t := st.stepsOf(x.Body.List, ind+"  ")
+		var e []string
+		switch eb := x.Else.(type) {
+		case *ast.BlockStmt:
+			e = st.stepsOf(eb.List, ind+"  ")
+		case *ast.IfStmt:
+			e = st.stepOf(eb, ind+"  ")
+		}
+		return []string{fmt.Sprintf(".ite %s %s %s", leanStr(st.txt(x.Cond)), list(t, ind), list(e, ind))}
+	case *ast.ForStmt:
+		if !hasWrite(x) {
+			return nil
+		}
+		name := "for"
+		if x.Init != nil {
+			if as, ok := x.Init.(*ast.AssignStmt); ok && len(as.Lhs) == 1 && len(as.Rhs) == 1 {
+				name += " " + st.txt(as.Lhs[0]) + " := " + st.txt(as.Rhs[0]) + ";"
+			}
+		}
+		if x.Cond != nil {
+			name += " " + unparen(st.txt(x.Cond))
+		}
+		if x.Post != nil {
+			if id, ok := x.Post.(*ast.IncDecStmt); ok {
+				name += "; " + st.txt(id.X) + id.Tok.String()
+			}
+		}
+		return []string{fmt.Sprintf(".loop %s %s", leanStr(name), list(st.stepsOf(x.Body.List, ind+"  "), ind))}
+	case *ast.RangeStmt:
+		if !hasWrite(x) {
+			return nil
+		}
+		return []string{fmt.Sprintf(".loop %s %s", leanStr("range "+unparen(st.txt(x.X))), list(st.stepsOf(x.Body.List, ind+"  "), ind))}
+	case *ast.BlockStmt:
+		return st.stepsOf(x.List, ind)
+	default:
+		if hasWrite(s) {
+			if as, ok := s.(*ast.AssignStmt); ok {
+				// an assignment whose right side writes (o = WritePack(o, it)): keep the call
+				for _, r := range as.Rhs {
+					if c, ok := r.(*ast.CallExpr); ok && hasWrite(c) {
+						return []string{".other " + leanStr(st.txt(c))}
+					}
+				}
+			}
+			return []string{".other " + leanStr(fmt.Sprintf("%T", s))}
+		}
+		return nil
+	}
 }
 
 func hasWrite(n ast.Node) bool {
@@ -391,7 +778,7 @@ func hasWrite(n ast.Node) bool {
 			case *ast.Ident:
 				name = f.Name
 			}
-			if isWriteName(name) {
+			if strings.HasPrefix(name, "Write") || strings.HasPrefix(name, "write") || name == "ToBytes" {
 				found = true
 			}
 		}
@@ -400,113 +787,51 @@ func hasWrite(n ast.Node) bool {
 	return found
 }
 
-func typedSteps(fd *ast.FuncDecl) []string {
-	nm := &normer{loc: localsOf(fd), idx: map[string]int{}}
-	if fd.Recv != nil && len(fd.Recv.List) == 1 && len(fd.Recv.List[0].Names) == 1 {
-		delete(nm.loc, fd.Recv.List[0].Names[0].Name)
-	}
-	isLocal := func(e ast.Expr) bool {
-		id, ok := e.(*ast.Ident)
-		return ok && nm.loc[id.Name]
-	}
-	var out []string
-	loops := 0
-	for _, st := range fd.Body.List {
-		switch x := st.(type) {
-		case *ast.ExprStmt:
-			c, ok := x.X.(*ast.CallExpr)
-			if !ok {
-				continue
-			}
-			se, isSel := c.Fun.(*ast.SelectorExpr)
-			switch {
-			case isSel && isLocal(se.X) && strings.HasPrefix(se.Sel.Name, "Write") && len(c.Args) == 1:
-				a := c.Args[0]
-				if f, ok := fieldArg(a); ok {
-					out = append(out, fmt.Sprintf(".w %s %s", leanStr(se.Sel.Name), leanStr(f)))
-				} else if bl, ok := a.(*ast.BasicLit); ok && bl.Kind == token.INT {
-					v, _ := intOf(bl.Value)
-					out = append(out, fmt.Sprintf(".lit %s %d", leanStr(se.Sel.Name), v))
-				} else if id, ok := a.(*ast.Ident); ok && (id.Name == "true" || id.Name == "false") {
-					v := 0
-					if id.Name == "true" {
-						v = 1
-					}
-					out = append(out, fmt.Sprintf(".lit %s %d", leanStr(se.Sel.Name), v))
-				} else if ic, ok := a.(*ast.CallExpr); ok && se.Sel.Name == "WriteBlob" && len(ic.Args) == 0 {
-					if is, ok := ic.Fun.(*ast.SelectorExpr); ok && is.Sel.Name == "ToByteArray" && isLocal(is.X) {
-						out = append(out, ".blobWrap")
-					} else {
-						out = append(out, ".other "+leanStr(se.Sel.Name+"("+nm.text(a)+")"))
-					}
-				} else {
-					out = append(out, ".other "+leanStr(se.Sel.Name+"("+nm.text(a)+")"))
-				}
-			case isSel && se.Sel.Name == "Write" && len(c.Args) == 1 && isLocal(c.Args[0]):
-				if f, ok := thisField(se.X); ok && f == "AbstractPack" {
-					out = append(out, ".hdr")
-				} else {
-					out = append(out, ".other "+leanStr(nm.text(c)))
-				}
-			case isSel && se.Sel.Name == "writeShortArray" && len(c.Args) == 2 && isLocal(c.Args[0]):
-				if f, ok := thisField(c.Args[1]); ok {
-					out = append(out, ".arr8 "+leanStr(f))
-				} else {
-					out = append(out, ".other "+leanStr(nm.text(c)))
-				}
-			case isSel && len(c.Args) == 1 && isLocal(c.Args[0]) && strings.HasPrefix(se.Sel.Name, "write"):
-				if id, ok := se.X.(*ast.Ident); ok && id.Name == "this" {
-					out = append(out, ".sec "+leanStr(se.Sel.Name))
-				} else {
-					out = append(out, ".other "+leanStr(nm.text(c)))
-				}
-			case isSel && len(c.Args) == 2 && isLocal(c.Args[0]) && strings.HasPrefix(se.Sel.Name, "Write"):
-				// pkg.WriteValue(stream, this.F)
-				if f, ok := thisField(c.Args[1]); ok {
-					out = append(out, fmt.Sprintf(".w %s %s", leanStr(se.Sel.Name), leanStr(f)))
-				} else {
-					out = append(out, ".other "+leanStr(nm.text(c)))
-				}
-			default:
-				if hasWrite(c) {
-					out = append(out, ".other "+leanStr(nm.text(c)))
-				}
-			}
-		case *ast.IfStmt:
-			if hasWrite(x) {
-				out = append(out, ".sec "+leanStr("if:"+nm.text(x.Cond)))
-			}
-		case *ast.ForStmt, *ast.RangeStmt:
-			if hasWrite(x) {
-				f := firstThisField(x)
-				if f == "" {
-					f = fmt.Sprintf("#%d", loops)
-				}
-				loops++
-				out = append(out, ".sec "+leanStr("for:"+f))
-			}
-		default:
-			if hasWrite(st) {
-				out = append(out, ".other "+leanStr(fmt.Sprintf("%T", st)))
-			}
-		}
-	}
-	return out
-}
-
 func emitSteps(b *strings.Builder, name string, fd *ast.FuncDecl) {
-	fmt.Fprintf(b, "def steps_%s : List Wire.Step := [", name)
 	if fd == nil {
-		b.WriteString(".other \"missing\"]\n\n")
+		fmt.Fprintf(b, "def steps_%s : List Wire.Step := [.other \"missing\"]\n\n", name)
 		return
 	}
-	for i, s := range typedSteps(fd) {
-		if i > 0 {
-			b.WriteString(",")
+	st := newStepper(fd)
+	items := st.stepsOf(fd.Body.List, "")
+	n := len(items)
+	if n >= 3 && items[0] == ".hdr" && items[n-1] == ".blobWrap" {
+		// a body built in a side stream and emitted as one blob after the header: the body is emitted in
+		// parts (every if / for statement on its own, runs of plain writes in chunks) so that each part
+		// gets its own obligation; the whole is their concatenation
+		inner := items[1 : n-1]
+		var parts [][]string
+		var cur []string
+		flush := func() {
+			if len(cur) > 0 {
+				parts = append(parts, cur)
+				cur = nil
+			}
 		}
-		b.WriteString("\n  " + s)
+		for _, it := range inner {
+			if strings.HasPrefix(it, ".ite") || strings.HasPrefix(it, ".loop") {
+				flush()
+				parts = append(parts, []string{it})
+				continue
+			}
+			cur = append(cur, it)
+			if len(cur) == 20 {
+				flush()
+			}
+		}
+		flush()
+		var names []string
+		for k, pt := range parts {
+			pn := fmt.Sprintf("steps_%s_p%d", name, k)
+			names = append(names, pn)
+			fmt.Fprintf(b, "def %s : List Wire.Step := %s\n\n", pn, list(pt, ""))
+		}
+		fmt.Fprintf(b, "def steps_%s_parts : List (List Wire.Step) := [%s]\n\n", name, strings.Join(names, ", "))
+		fmt.Fprintf(b, "def steps_%s_body : List Wire.Step := %s\n\n", name, strings.Join(names, " ++ "))
+		fmt.Fprintf(b, "def steps_%s : List Wire.Step := .hdr :: (steps_%s_body ++ [.blobWrap])\n\n", name, name)
+		return
 	}
-	b.WriteString("]\n\n")
+	fmt.Fprintf(b, "def steps_%s : List Wire.Step := %s\n\n", name, list(items, ""))
 }
 
 // ---------------------------------------------------------------- Hash64: expression transcription
@@ -699,12 +1024,16 @@ func main() {
 	emitNat("netVer", oc["netSrcAgentVersion"])
 	b.WriteString("\n")
 	emitSkel(&b, "makeData", method(ow, "OneWayTcpClient", "makeData"))
+	emitSteps(&b, "makeData", method(ow, "OneWayTcpClient", "makeData"))
 
 	// ---- DataOutputX.WriteHeader / WriteOneWayHeader
 	dox := parse(filepath.Join(*repo, "io", "DataOutputX.go"))
 	emitSkel(&b, "WriteHeader", method(dox, "DataOutputX", "WriteHeader"))
 	emitSkel(&b, "WriteOneWayHeader", method(dox, "DataOutputX", "WriteOneWayHeader"))
 	emitSkel(&b, "WriteIntBytes", method(dox, "DataOutputX", "WriteIntBytes"))
+	emitSteps(&b, "WriteHeader", method(dox, "DataOutputX", "WriteHeader"))
+	emitSteps(&b, "WriteOneWayHeader", method(dox, "DataOutputX", "WriteOneWayHeader"))
+	emitSteps(&b, "WriteIntBytes", method(dox, "DataOutputX", "WriteIntBytes"))
 
 	// ---- hash
 	hf := parse(filepath.Join(*repo, "util", "hash", "HashUtil.go"))
@@ -826,10 +1155,12 @@ func main() {
 	for _, h := range []string{"writeShortArray", "writeTxcallerOther", "writeTxcallerOidMeter", "writeSqlMeter", "writeHttpcMeter",
 		"writeTxcallerGroupMeter", "writeTxcallerPOidMeter"} {
 		emitSkel(&b, "CounterPack1_"+h, method(files["CounterPack1"], "CounterPack1", h))
+		emitSteps(&b, "CounterPack1_"+h, method(files["CounterPack1"], "CounterPack1", h))
 	}
 	emitSkel(&b, "LogSinkPack_ResetTagHash", method(files["LogSinkPack"], "LogSinkPack", "ResetTagHash"))
 	hm := parse(filepath.Join(*repo, "util", "hmap", "IntIntMap.go"))
 	emitSkel(&b, "IntIntMap_ToBytes", method(hm, "IntIntMap", "ToBytes"))
+	emitSteps(&b, "IntIntMap_ToBytes", method(hm, "IntIntMap", "ToBytes"))
 
 	// ---- constants
 	emitNat("hitmapLength", cs["HITMAP_LENGTH"])
